@@ -148,7 +148,7 @@ def eval_quant(I, node, frame, which):
     if which == 'forall':
         q = z3.ForAll(bvars, z3.Implies(z3.And(*guards), body) if guards else body, patterns=pats or [])
     else:
-        q = z3.Exists(bvars, z3.And(*(guards + [body])))
+        q = z3.Exists(bvars, z3.And(*(guards + [body])), patterns=pats or [])
     return mk_bool(q)
 
 
@@ -194,6 +194,9 @@ def spec_is_none(I, expr, frame):
             from .objects import isnone_fn
             classes = base.extra['classes']
             decls = {I.registry.field_decl(c, expr.attr) for c in classes}
+            if len(decls - {None}) == 1 and len(decls) > 1:
+                # declared by one class of the union: its (total) isnone predicate, as for plain field reads in specs
+                decls = decls - {None}
             if len(decls) == 1 and None not in decls:
                 dcls, fty = next(iter(decls))
                 if isinstance(fty, tuple) and fty[0] == 'opt':
@@ -380,7 +383,9 @@ decode_fn = z3.Function('decode', T.Bytes, z3.StringSort(), z3.StringSort())
 decodable = z3.Function('decodable', T.Bytes, z3.StringSort(), z3.BoolSort())
 encode_fn = z3.Function('encode', z3.StringSort(), z3.StringSort(), T.Bytes)
 str_lower = z3.Function('str_lower', z3.StringSort(), z3.StringSort())
-real_is_int = z3.Function('real_is_int', z3.RealSort(), z3.BoolSort())
+def real_is_int(t):
+    """float.is_integer() over the reals: the SMT-LIB is_int predicate"""
+    return z3.IsInt(t)
 
 
 def literal_str(sv):
@@ -693,11 +698,74 @@ def b_range(I, slf, args, kw, node):
     elif len(vals) == 2:
         lo, hi = vals
     else:
-        I.oos(node, "range with step")
+        lo, hi, step = vals
+        if const_int(step) != 1:
+            if I.path.decide(step == 0):
+                I.raise_('ValueError', node)        # range() arg 3 must not be zero
+            from .theory import axiom_instances_for
+            for inst in axiom_instances_for(step):
+                I.path.assume(inst)
+            if not I.path.decide(step > 0):
+                I.oos(node, "range with a negative step")
+            # members: lo <= x < hi with (x - lo) % step == 0; only next(<generator expression>, default) consumes it
+            return SV('steprange', (lo, hi, step))
     clo, chi = const_int(lo), const_int(hi)
     if clo is not None and chi is not None and chi - clo <= 64:
         return SV('clist', [mk_int(i) for i in range(clo, chi)])
     return SV('range', (lo, hi))
+
+
+def b_next(I, slf, args, kw, node):
+    """next((elt for x in range(lo, hi, step) if cond), default): the element for the FIRST member of the range that
+    satisfies the (pure) condition, or the default when none does"""
+    from .loops import PureMode, _single_gen
+    if len(args) != 2 or kw or args[0].kind != 'genexp':
+        I.oos(node, "next(...) other than next(<generator expression>, default)")
+    gnode, frame = args[0].t
+    gen = _single_gen(I, gnode)
+    seq = I.eval(gen.iter, frame)
+    if seq.kind == 'steprange':
+        lo, hi, step = seq.t
+    elif seq.kind == 'range':
+        (lo, hi), step = seq.t, z3.IntVal(1)
+    else:
+        I.oos(node, f"next over a generator expression on {seq.kind}")
+    if not isinstance(gen.target, ast.Name):
+        I.oos(node, "next: comprehension target")
+
+    def member(x):
+        off = x - lo if const_int(lo) != 0 else x
+        return z3.And(lo <= x, x < hi, off % step == 0) if const_int(step) != 1 else z3.And(lo <= x, x < hi)
+    j0 = z3.Int(I.path.fresh_name('j!n'))
+    f2 = Frame(parent=frame)
+    f2.vars[gen.target.id] = mk_int(j0)
+    guard = member(j0)
+    I.path.pc.append(guard)
+    try:
+        with PureMode(I, node):
+            conds = []
+            for c in gen.ifs:
+                v = I.eval(c, f2)
+                conds.append(I.truth(v, c))
+            elt = I.eval(gnode.elt, f2)
+    finally:
+        idx = max(i for i, c in enumerate(I.path.pc) if c is guard)
+        del I.path.pc[idx]
+    if elt.kind != 'int':
+        I.oos(node, f"next: element of kind {elt.kind}")
+    cond0 = z3.And(*conds) if conds else z3.BoolVal(True)
+    jb = z3.Int(I.path.fresh_name('j!b'))
+
+    def at(term, x):
+        return z3.substitute(term, (j0, x))
+    found = z3.Bool(I.path.fresh_name('next_found'))
+    if I.path.decide(found):
+        r = z3.Int(I.path.fresh_name('next_at'))
+        I.path.assume(z3.And(member(r), at(cond0, r)))
+        I.path.assume(z3.ForAll([jb], z3.Implies(z3.And(member(jb), jb < r), z3.Not(at(cond0, jb)))))
+        return mk_int(at(elt.t, r))
+    I.path.assume(z3.ForAll([jb], z3.Implies(member(jb), z3.Not(at(cond0, jb)))))
+    return args[1]
 
 
 def b_list(I, slf, args, kw, node):
@@ -867,7 +935,7 @@ BUILTINS = {
     'bytes.decode': b_decode, 'bytes.index': b_bytes_index, 'bytes.hex': b_hex, 'str.lower': b_lower,
     'str.startswith': b_startswith, 'str.endswith': b_endswith, 'list.append': b_list_append,
     'list.index': b_list_index, 'slist.index': b_slist_index, 'slist.append': b_slist_append, 'dict.get': b_dict_get, 'dict.items': b_dict_items,
-    'dict.keys': b_dict_keys, 'dict.values': b_dict_values, 'dict': b_dict,
+    'dict.keys': b_dict_keys, 'dict.values': b_dict_values, 'dict': b_dict, 'next': b_next,
 }
 
 
@@ -880,4 +948,4 @@ def _install_source_models():
 
 _install_source_models()
 BUILTIN_NAMES = {'len', 'isinstance', 'int', 'float', 'bool', 'str', 'bytes', 'type', 'getattr', 'min', 'max',
-                 'range', 'list', 'tuple', 'all', 'any', 'sum', 'abs', 'dict'}
+                 'range', 'list', 'tuple', 'all', 'any', 'sum', 'abs', 'dict', 'next'}
